@@ -172,7 +172,7 @@ def _mk(it):
     "C29",
     "getitem",
     getitem_case,
-    quick=500,
+    quick=300,
     thorough=12000,
     tol="exact",
     rule=">=1 ensemble axis and an index expression that changes the shape or refuses",
@@ -266,7 +266,7 @@ def stack_case(draw):
     "C29",
     "stack",
     stack_case,
-    quick=350,
+    quick=210,
     thorough=8000,
     tol="exact",
     rule=">=2 members, or >=1 ensemble axis (the new axis is inserted between existing ones)",
@@ -336,7 +336,7 @@ def concat_case(draw):
     "C29",
     "concatenate",
     concat_case,
-    quick=350,
+    quick=210,
     thorough=8000,
     tol="exact",
     rule="always (>=1 ensemble axis and >=2 operands by construction)",
@@ -416,7 +416,7 @@ def squeeze_expand_case(draw):
     "C29",
     "squeeze_expand",
     squeeze_expand_case,
-    quick=450,
+    quick=270,
     thorough=10000,
     tol="exact",
     rule="the number of dimensions changes",
@@ -505,7 +505,7 @@ def reduction_case(draw):
     "C29",
     "reduction",
     reduction_case,
-    quick=500,
+    quick=300,
     thorough=12000,
     tol="ulp32 (1e-5 of max|input|; reference reduced in float64/complex128)",
     rule=">=1 ensemble axis is reduced, or a base axis must be refused",
@@ -605,7 +605,7 @@ def arithmetic_case(draw):
     "C29",
     "arithmetic",
     arithmetic_case,
-    quick=500,
+    quick=300,
     thorough=12000,
     tol="ulp32 (1e-6 relative; same dtype arithmetic as NumPy)",
     rule="always (every operation changes the values)",
